@@ -86,17 +86,20 @@ func RunExtra(c *core.Ctx, l *core.Ledger) {
 
 // extraDoc: what the extra rules of a property decide (appended to the explanation in the evidence file).
 var extraDoc = map[string]string{
-	"C01": "(UNSAFE-LEN) unsafe.String/unsafe.Slice over the data of a value take len of that same value; (CONST-ACCEPT) each constant kind's Link succeeds exactly under the root type kinds the generator renders it for (frozen table).",
+	"C09": "(PARSE-ID) whenever the parser builds a field identifier, its ID is the scanned number converted to int and its Unset flag is a constant.",
+	"C13": "(FULL-READ) the stream reader hands its io.Reader only to full-read primitives: a short source is an error, never a silent end of a skip.",
+	"C17": "(HANDSHAKE-GATE) a plugin handle is constructed only after a handshake that succeeded with the expected name and exactly the expected API version.",
+	"C01": "(FRESH-CLAIM) fresh-name searches of the generator record the name they found free; (UNSAFE-LEN) unsafe.String/unsafe.Slice over the data of a value take len of that same value; (CONST-ACCEPT) each constant kind's Link succeeds exactly under the root type kinds the generator renders it for (frozen table).",
 	"C02": "(UNSAFE-LEN) as under C01; (STOP-EXACT) a byte read from the input is compared with 0 by == or != only; (POOL-*) pooled readers are completely re-initialised when borrowed.",
 	"C03": "(STOP-EXACT) a byte read from the input is compared with 0 by == or != only: 0x80–0xFF never end a struct.",
-	"C04": "(UNSAFE-LEN) unsafe views take len of the value they alias.",
-	"C05": "(STOP-EXACT) only the byte 0 ends a struct; (WIDE-ARITH) count × width of a skipped container is computed in 64 bits.",
+	"C04": "(UNSAFE-LEN) unsafe views take len of the value they alias; (STOP-EXACT) only the byte 0 ends a struct.",
+	"C05": "(RSEQ) every StreamReader primitive consumes exactly its Thrift row; (STOP-EXACT) only the byte 0 ends a struct; (WIDE-ARITH) count × width of a skipped container is computed in 64 bits.",
 	"C06": "(IMPORT-NAME) a path that is already imported is referred to by the name recorded for it; (CONST-ACCEPT) constants are accepted exactly for the type kinds the generator renders.",
-	"C07": "(LOOKUP-EXACT) the Lookup* functions of package compile match names exactly (no case folding, trimming or prefix tests).",
+	"C07": "(NARROW) narrowing conversions of source numbers in package compile are dominated by tests of both bounds; (LOOKUP-EXACT) the Lookup* functions of package compile match names exactly (no case folding, trimming or prefix tests).",
 	"C08": "(INDEX-GUARD) constant-index reads of input-dependent slices and strings in idl and idl/internal lie under a length test on every path; (APPEND-ALIAS) no function returns append(p, …) for its own slice parameter p.",
 	"C11": "(POS-LOOKUP) idl.Info.Pos indexes the position table with a node only after ast.Pos answered that the node has no position of its own.",
 	"C14": "(HASH-KEY) for every hashable primitive type code, the key toHashable yields is the value itself in its own Go type.",
-	"C19": "(REQUEST exceptions) the description of a function's exceptions is conditional only on a result specification being present and the list being non-empty.",
+	"C19": "(NAME-KEY) tables keyed by the name of a service or module specification are also keyed by, or nested under, its file; (REQUEST exceptions) the description of a function's exceptions is conditional only on a result specification being present and the list being non-empty.",
 }
 
 var extraRules = map[string][]func(*core.Ctx, *core.Ledger){
